@@ -78,6 +78,13 @@ def cases(tier, seed):
         cs.append({'scen': 'tt_round', 's': dict(base)})
         cs.append({'scen': 'tt_round', 's': dict(base, eps='zero')})
         cs.append({'scen': 'tt_round', 's': dict(base, rmax=1)})
+    # diagonal cores: r distinct singular values at the bond, r = 3, 4 (a tie at the threshold then costs more than the allowance)
+    for n in (3, 4):
+        diag = [[[0, i, i] for i in range(n)], [[i, i, 0] for i in range(n)]]
+        cs.append({'scen': 'tt_round', 's': {'N': [n, n], 'R': [1, n, 1], 'patterns': diag}})
+        cs.append({'scen': 'tt_round', 's': {'N': [n, n], 'R': [1, n, 1], 'patterns': diag, 'sym_cores': [1]}})
+    d3 = [[[0, i, i] for i in range(3)], [[i, i, i] for i in range(3)], [[i, i, 0] for i in range(3)]]
+    cs.append({'scen': 'tt_round', 's': {'N': [3, 3, 3], 'R': [1, 3, 3, 1], 'patterns': d3, 'sym_cores': [0]}})
     # rank-deficient / over-parameterised: a rank index that is never used (zero column) and the zero tensor
     cs.append({'scen': 'tt_round', 's': {'N': [2, 2], 'R': [1, 3, 1], 'patterns': [[[0, 0, 0], [0, 1, 1]], [[0, 0, 0], [1, 1, 0]]]}})
     cs.append({'scen': 'tt_round', 's': {'N': [2, 2, 2], 'R': [1, 2, 2, 1], 'patterns': [[[0, 0, 0], [0, 1, 0]], [[0, 0, 0], [0, 1, 1]], [[0, 0, 0], [1, 1, 0]]]}})
